@@ -69,3 +69,47 @@ pub fn mksdur(secs: i64, nanos: i32) -> Option<SignedDuration> {
     if (secs > 0 && nanos < 0) || (secs < 0 && nanos > 0) { return None; }
     Some(SignedDuration::new(secs, nanos))
 }
+
+pub use jiff::{RoundMode, Unit};
+#[inline(always)]
+pub fn mode_of(m: u8) -> Option<RoundMode> {
+    Some(match m {
+        0 => RoundMode::Ceil,
+        1 => RoundMode::Floor,
+        2 => RoundMode::Expand,
+        3 => RoundMode::Trunc,
+        4 => RoundMode::HalfCeil,
+        5 => RoundMode::HalfFloor,
+        6 => RoundMode::HalfExpand,
+        7 => RoundMode::HalfTrunc,
+        8 => RoundMode::HalfEven,
+        _ => return None,
+    })
+}
+/// (unit, increment) pairs: index -> concrete pair, so that the encoder sees constants per box.
+#[inline(always)]
+pub fn unit_inc(ui: u8) -> Option<(Unit, i64)> {
+    Some(match ui {
+        0 => (Unit::Nanosecond, 1),
+        1 => (Unit::Nanosecond, 5),
+        2 => (Unit::Nanosecond, 8),
+        3 => (Unit::Nanosecond, 125),
+        4 => (Unit::Nanosecond, 500),
+        5 => (Unit::Microsecond, 1),
+        6 => (Unit::Microsecond, 25),
+        7 => (Unit::Microsecond, 200),
+        8 => (Unit::Millisecond, 1),
+        9 => (Unit::Millisecond, 4),
+        10 => (Unit::Millisecond, 250),
+        11 => (Unit::Second, 1),
+        12 => (Unit::Second, 15),
+        13 => (Unit::Second, 30),
+        14 => (Unit::Minute, 1),
+        15 => (Unit::Minute, 12),
+        16 => (Unit::Minute, 20),
+        17 => (Unit::Hour, 1),
+        18 => (Unit::Hour, 3),
+        19 => (Unit::Hour, 12),
+        _ => return None,
+    })
+}
